@@ -435,7 +435,7 @@ int main(int argc, char **argv) {
   vh_rm_rf(src); vh_mkdir_p(src); vh_rm_rf(src);
 
   cfg_default(&cfg);
-  cfg.write_buffer_size = 64 << 10;
+  cfg.write_buffer_size = 256 << 10;   /* the live WAL holds a record of ~105 KiB: no memtable switch before the close */
   cfg.max_file_size = 1 << 20;
   cfg.block_size = 1024 << (g_db % 3);
   cfg.restart = (g_db & 1) ? 4 : 16;
